@@ -66,29 +66,37 @@ def gerrJ : GErr → Json
   | .assertion => errJ "assertion"
   | .bad => errJ "bad"
 
+/-- the Python exception each model error stands for, named as the harness names exceptions -/
+def serrJ : SErr → Json
+  | .emptyStream => errJ "other:TypeError"
+  | .stop => errJ "stop"
+  | .badEdges => errJ "value"
+  | .noData => errJ "other:IndexError"
+  | .genome => errJ "genome"
+
 def handle (op : String) (j : Json) : Except String Json := do
   match op with
   | "mean" =>
     let cs ← getIntListList j "chunks"
-    let m := meanStream cs
-    let s := sumAndN cs.flatten
     let f := fun (p : Int × Nat) => Json.mkObj [("sum", int p.1), ("n", nat p.2)]
-    pure (reply (f m) (some (f s)))
+    let m := match meanStream cs with
+      | .ok r => f r
+      | .error e => serrJ e
+    pure (reply m (some (f (sumAndN cs.flatten))))
   | "bincount" =>
     let cs ← getNatListList j "chunks"
     let ml ← getNat j "minlength"
     let m := match bincountStream ml cs with
       | some r => natList r
-      | none => errJ "empty"
+      | none => serrJ .emptyStream
     pure (reply m (some (natList (bincount ml cs.flatten))))
   | "histogram" =>
     let cs ← getIntListList j "chunks"
     let edges ← getIntList j "edges"
-    let m := match histogramStream edges cs with
-      | some (h, e) => Json.mkObj [("hist", natList h), ("edges", intList e)]
-      | none => errJ "empty"
-    let s := Json.mkObj [("hist", natList (histogram edges cs.flatten)), ("edges", intList edges)]
-    pure (reply m (some s))
+    let f := fun (r : Except SErr (List Nat × List Int)) => match r with
+      | .ok (h, e) => Json.mkObj [("hist", natList h), ("edges", intList e)]
+      | .error e => serrJ e
+    pure (reply (f (histogramStream edges cs)) (some (f (histogramMem edges cs.flatten))))
   | "count_kmers" =>
     let cs ← getNatLLL j "chunks"
     let k ← getNat j "k"
@@ -106,7 +114,7 @@ def handle (op : String) (j : Json) : Except String Json := do
       rows.toList.mapM asIntList)
     let m := match meanColsStream w cs with
       | .arr v => intList v
-      | .zero => errJ "empty"
+      | .zero => serrJ .emptyStream
     pure (reply m (some (intList (sumAndNCols w cs.flatten))))
   | "rowmean" =>
     -- `streamable()` without reduction: one result per chunk; modelled on the row sums (the division is runtime)
@@ -119,10 +127,10 @@ def handle (op : String) (j : Json) : Except String Json := do
     let cs ← getNatListList j "chunks"
     let p ← getNat j "qp"
     let d ← getNat j "qd"
-    let m := match quantileStream cs p d with
-      | some q => nat q
-      | none => errJ "empty"
-    pure (reply m (some (nat (quantileOf (bincount 0 cs.flatten) p d))))
+    let f := fun (r : Except SErr Nat) => match r with
+      | .ok q => nat q
+      | .error e => serrJ e
+    pure (reply (f (quantileStream cs p d)) (some (f (quantileMem cs.flatten p d))))
   | "groupby" =>
     let cs ← getPairLL j "chunks"
     let fast ← getBool j "fast"
@@ -177,19 +185,13 @@ def handle (op : String) (j : Json) : Except String Json := do
     let edges : List Int := (List.range (bins + 1)).map (fun (i : Nat) => Int.ofNat i)
     let toI (l : List Nat) : List Int := l.map (fun (n : Nat) => Int.ofNat n)
     let histJ (h : List Nat) : Json := Json.mkObj [("hist", natList h), ("edges", intList edges)]
-    let bufs := chromBuffers sizes.length chunks
-    let per := bufs.map (fun b => List.zipWith pileup1 sizes b)
-    let m := match kind, per with
-      | _, none => errJ "genome"
-      | "pileup_data", some p => natListList p
-      | "pileup_sum", some _ => (match streamPileupSum sizes chunks with | some n => nat n | none => errJ "genome")
-      | "mask_sum", some _ => (match streamMask sizes chunks with | some mk => nat mk.sum | none => errJ "genome")
-      | "under", some _ | "under_stranded", some _ => (match streamValues stranded sizes chunks [peaks] with | some rows => natListList rows | none => errJ "genome")
-      | "pileup_hist", some p =>
-        (match histogramReduce (p.map (fun d => (histogram edges (toI d), edges))) with
-         | some (h, _) => histJ h
-         | none => errJ "empty")
-      | _, _ => errJ "kind"
+    let m := match kind with
+      | "pileup_data" => (match streamPileupData sizes chunks with | some p => natListList p | none => errJ "genome")
+      | "pileup_sum" => (match streamPileupSum sizes chunks with | some n => nat n | none => errJ "genome")
+      | "mask_sum" => (match streamMask sizes chunks with | some mk => nat mk.sum | none => errJ "genome")
+      | "under" | "under_stranded" => (match streamValues stranded sizes chunks [peaks] with | some rows => natListList rows | none => errJ "genome")
+      | "pileup_hist" => (match streamPileupHist edges sizes chunks with | .ok (h, _) => histJ h | .error e => serrJ e)
+      | _ => errJ "kind"
     let s := match kind, C10.pileupGlobal sizes ivs, C10.maskGlobal sizes ivs with
       | "pileup_data", some d, _ => natListList (C10.toDict sizes d)
       | "pileup_sum", some d, _ => nat d.sum
